@@ -120,7 +120,7 @@ def build_proofs(pid, cfg, log):
         res["obligations"] = len(theorems)
         res["theorems"] = theorems
         bad_proofs = [m for m in re.findall(r"Proof\.(.*?)Qed\.", text, re.S)
-                      if not re.fullmatch(r"\s*(exact\s+[\w.@]+\s*\.|vm_compute\.\s*reflexivity\.)\s*", m)]
+                      if not re.fullmatch(r"\s*(exact\s+[\w.@]+\s*\.|vm_compute\.\s*reflexivity\.|vm_compute\.\s*repeat split;\s*reflexivity\.)\s*", m)]
         if bad_proofs:
             res["problems"].append("Properties/%s.v contains a proof that is not `exact <lemma>`" % pid)
         if rc == 0:
@@ -177,7 +177,8 @@ def build_driver(pid, cfg, log):
     gen = os.path.join(OCAML, "gen")
     os.makedirs(os.path.join(OCAML, "bin"), exist_ok=True)
     exe = os.path.join(OCAML, "bin", name)
-    srcs = [os.path.join(gen, model + ".ml"), os.path.join(OCAML, "conv.ml"), os.path.join(OCAML, name + ".ml")]
+    srcs = [os.path.join(gen, model + ".ml"), os.path.join(OCAML, "conv.ml")] + \
+           [os.path.join(OCAML, i) for i in cfg.get("driver_includes", [])] + [os.path.join(OCAML, name + ".ml")]
     with Lock("ocaml-" + name):
         if not all(os.path.exists(s) for s in srcs):
             log.append("driver sources missing: %s" % [s for s in srcs if not os.path.exists(s)])
@@ -187,8 +188,8 @@ def build_driver(pid, cfg, log):
         main = os.path.join(gen, name + "_main.ml")
         with open(main, "w") as f:
             f.write("open %s\n" % (model[0].upper() + model[1:]))
-            f.write(open(srcs[1]).read())
-            f.write(open(srcs[2]).read())
+            for src in srcs[1:]:
+                f.write(open(src).read())
         rc, out = sh(["ocamlfind", "ocamlopt", "-O2" if False else "-inline", "50", "-w", "-a", "-package", "zarith", "-linkpkg",
                       model + ".mli", model + ".ml", name + "_main.ml", "-o", exe], cwd=gen, timeout=900)
         if rc != 0:
@@ -299,7 +300,9 @@ def run_replay_file(exe, path, budget):
 
 
 def run_driver(driver, lines):
-    p = subprocess.run([driver], input="\n".join(lines) + "\n", stdout=subprocess.PIPE, stderr=subprocess.STDOUT, text=True)
+    if isinstance(driver, str):
+        driver = [driver]
+    p = subprocess.run(driver, input="\n".join(lines) + "\n", stdout=subprocess.PIPE, stderr=subprocess.STDOUT, text=True)
     return p.returncode, p.stdout.split("\n")
 
 
@@ -377,6 +380,8 @@ def shrink_case(pid, cfg, exe, driver, case, budget, still_fails):
             kp, ps = parts(v)
             if kp not in ("list", "hex") or len(ps) <= 1:
                 continue
+            if cfg.get("shrink_fields") is not None and k not in cfg["shrink_fields"]:
+                continue
             # fields of the same list length shrink together
             group = [idx]
             if kp == "list":
@@ -416,6 +421,8 @@ def check(pid, tier="quick", seed=0, replay=None):
 
     proof = build_proofs(pid, cfg, log)
     driver = build_driver(pid, cfg, log)
+    if driver:
+        driver = [driver] + cfg.get("driver_args", [])
     exe = build_harness(cfg, log)
     exe_rel = build_harness(cfg, log, release=True) if (tier == "thorough" and cfg.get("release", True)) else None
 
@@ -424,15 +431,20 @@ def check(pid, tier="quick", seed=0, replay=None):
     stats = {}
     known, fixed = load_findings(pid)
 
-    def one_case_fails(exe_, case_text):
+    def fail_kind(exe_, case_text):
+        """None if the oracle holds on this case; otherwise the kind of failure
+        ('value' or the '!xxx' token of the implementation's observation)"""
         tmp = os.path.join(CACHE, "tmp", "%s-shrink-%d.case" % (pid, os.getpid()))
         os.makedirs(os.path.dirname(tmp), exist_ok=True)
         open(tmp, "w").write("CASE 0 %s\n" % case_text)
         ls = run_replay_file(exe_, tmp, budget)
         rc, rl = run_driver(driver, ls)
-        _, _, res, _ = analyse(ls, rl)
+        _, ob, res, _ = analyse(ls, rl)
         r = res.get("0")
-        return bool(r) and r.get("oracle") == "0" and r.get("class") is None and "outside-precondition" not in r.get("tags", "")
+        if not (bool(r) and r.get("oracle") == "0" and r.get("class") is None and "outside-precondition" not in r.get("tags", "")):
+            return None
+        o = ob.get("0", "")
+        return o.split(" ")[0].split(":")[0] if o.startswith("!") else "value"
 
     if replay:
         ls = run_replay_file(exe, replay, budget)
@@ -520,8 +532,9 @@ def check(pid, tier="quick", seed=0, replay=None):
         case = cases.get(cid, "")
         try:
             if case and tier is not None and cfg.get("shrink", True):
-                if one_case_fails(exe_for(cid), case):
-                    case = shrink_case(pid, cfg, exe_for(cid), driver, case, budget, lambda t: one_case_fails(exe_for(cid), t))
+                k0 = fail_kind(exe_for(cid), case)
+                if k0:
+                    case = shrink_case(pid, cfg, exe_for(cid), driver, case, budget, lambda t: fail_kind(exe_for(cid), t) == k0)
         except Exception as e:  # shrinking is best effort
             log.append("shrink failed: %r" % e)
         path = os.path.join(VERIF, "replays", "%s-%s.case" % (pid, stable_hash(case + why)))
